@@ -806,6 +806,8 @@ def _observe(ctx, fam, space, ref, tag, label):
                 C.same(f"laws of the marginals of {v.name}: {keys}", keys, [_ref(fam, lid)[1] for lid in v.lids])
                 sup = np.asarray(space.get_support(v.name), dtype=float)
                 C.ok(f"get_support({v.name})", sup.shape == (v.size, 2) and all(_close(sup[c, 0], v.lb[c]) and _close(sup[c, 1], v.ub[c]) for c in range(v.size)))
+            if not unc:  # as for a fresh space: no random variable, no joint distribution (a stale one would still be sampled by compute_samples)
+                C.ok("no uncertain variable: no joint distribution", getattr(space, "distribution", None) is None)
             if unc:  # the joint distribution of all the uncertain variables lists their marginals in the order of uncertain_variables
                 keys = [_law_key(fam, m.distribution) for m in space.distribution.marginals]
                 C.same(f"laws of the marginals of the joint distribution: {keys}", keys, [_ref(fam, lid)[1] for n in unc for lid in ref.get(n).lids])
